@@ -18,7 +18,7 @@ func runC19(c *Check, rng *rand.Rand) {
 	}
 	n := "40000"
 	if c.Thorough() {
-		n = "3000000"
+		n = "600000"
 	}
 	r := runE2(c, "", "c19", 40*time.Minute, "--n", n, "--workers", "16")
 	if r != nil {
@@ -36,7 +36,7 @@ func runC19(c *Check, rng *rand.Rand) {
 	for _, m := range modes {
 		nn := "4000"
 		if c.Thorough() {
-			nn = "400000"
+			nn = "60000"
 		}
 		if r2 := runE2(c, m, "c19", 40*time.Minute, "--n", nn, "--workers", "16"); r2 != nil {
 			c.DistinctN(0)
